@@ -1,0 +1,197 @@
+//go:build verif
+
+package sync
+
+// Contracts for gocv (contract-based deductive verification, /verif).
+//
+// C06, the sequential core of the sync pipeline. What is decided here, for every input and every
+// answer of the block source and of the chain: which blocks reach Blockchain.Store and with which
+// commitments, when the head is reverted and on what evidence, what the new-head and reorg
+// notifications carry and in which order they are sent. What is NOT decided here: goroutine
+// schedules (the order in which the conc streams run the callbacks), convergence.
+
+//@ opaque type github.com/NethermindEth/juno/core/felt.Felt
+
+//@ ghost func errIs(err error, target error) bool
+//@ extern func errors.Is
+//@   ensures result == errIs(err, target)
+//@   ensures err == target && err != nil ==> result
+//@   ensures err == nil && target != nil ==> !result
+
+//@ pure func parentMismatch() error = blockchain.ErrParentDoesNotMatchHead
+
+// ---- assumed: observers do not touch the synchroniser ---------------------------------------------
+//@ extern func github.com/NethermindEth/juno/sync.EventListener.OnSyncStepDone
+//@ extern func github.com/NethermindEth/juno/sync.EventListener.OnReorg
+//@   logged as OnReorg
+//@ extern func github.com/NethermindEth/juno/utils/log.StructuredLogger.Info
+//@ extern func github.com/NethermindEth/juno/utils/log.StructuredLogger.Warn
+//@ extern func github.com/NethermindEth/juno/utils/log.StructuredLogger.Error
+//@ extern func github.com/NethermindEth/juno/utils/log.StructuredLogger.Debug
+//@ extern func github.com/NethermindEth/juno/plugin.JunoPlugin.NewBlock
+//@ extern func github.com/NethermindEth/juno/plugin.JunoPlugin.RevertBlock
+//@ extern func go.uber.org/zap.Uint64
+//@ extern func go.uber.org/zap.String
+//@ extern func go.uber.org/zap.Error
+//@ extern func go.uber.org/zap.Bool
+//@ extern func github.com/NethermindEth/juno/core/felt.(*Felt).ShortString
+//@ extern func github.com/NethermindEth/juno/core/felt.(*Felt).String
+//@ extern func time.Now
+//@ extern func time.Since
+//@ extern func context.Context.Done
+//@ extern func context.Context.Err
+//@ extern func runtime.GOMAXPROCS
+//@ extern func sync/atomic.(*Pointer).Load
+//@ extern func sync/atomic.(*Pointer).Store
+//@ extern func sync/atomic.(*Pointer).CompareAndSwap
+
+// ---- ghost record of what the chain and the source answered ---------------------------------------
+//@ ghost var storeErr error
+//@ extern func github.com/NethermindEth/juno/blockchain.(*Blockchain).Store
+//@   logged as Store
+//@   sets storeErr = result
+//@ ghost var revertErr error
+//@ extern func github.com/NethermindEth/juno/blockchain.(*Blockchain).RevertHead
+//@   logged as RevertHead
+//@   sets revertErr = result
+//@ ghost var headsHeader *core.Header
+//@ ghost var headsHeaderErr error
+//@ ghost var headNumber uint64
+//@ ghost var headHash felt.Felt
+//@ extern func github.com/NethermindEth/juno/blockchain.(*Blockchain).HeadsHeader
+//@   logged as HeadsHeader
+//@   sets headsHeader = result0
+//@   sets headsHeaderErr = result1
+//@   sets headNumber = result0.Number
+//@   sets headHash = *result0.Hash
+//@   ensures result1 == nil ==> result0 != nil && result0.Hash != nil && result0.ParentHash != nil
+//@ ghost var heightAns uint64
+//@ ghost var heightErr error
+//@ extern func github.com/NethermindEth/juno/blockchain.(*Blockchain).Height
+//@   logged as Height
+//@   sets heightAns = result0
+//@   sets heightErr = result1
+//@ ghost var localHdr *core.Header
+//@ ghost var localHdrErr error
+//@ extern func github.com/NethermindEth/juno/blockchain.(*Blockchain).BlockHeaderByNumber
+//@   logged as BlockHeaderByNumber
+//@   sets localHdr = result0
+//@   sets localHdrErr = result1
+//@   ensures result1 == nil ==> result0 != nil && result0.Hash != nil
+//@ ghost var remoteHead *core.Header
+//@ ghost var remoteHeadErr error
+//@ extern func github.com/NethermindEth/juno/sync.DataSource.BlockHeaderLatest
+//@   logged as BlockHeaderLatest
+//@   sets remoteHead = result0
+//@   sets remoteHeadErr = result1
+//@   ensures result1 == nil ==> result0 != nil && result0.Hash != nil
+//@ ghost var srcBlock *core.Block
+//@ ghost var srcBlockErr error
+//@ ghost var srcHash felt.Felt
+//@ extern func github.com/NethermindEth/juno/sync.DataSource.BlockByNumber
+//@   logged as BlockByNumber
+//@   sets srcBlock = result0.Block
+//@   sets srcBlockErr = result1
+//@   sets srcHash = *result0.Block.Header.Hash
+//@   ensures result1 == nil ==> result0.Block != nil && result0.Block.Header != nil && result0.Block.Header.Hash != nil && result0.Block.Header.ParentHash != nil
+//@ ghost var sanityErr error
+//@ ghost var sanityCommitments *core.BlockCommitments
+//@ extern func github.com/NethermindEth/juno/blockchain.(*Blockchain).SanityCheckNewHeight
+//@   logged as SanityCheck
+//@   sets sanityCommitments = result0
+//@   sets sanityErr = result1
+//@ extern func github.com/NethermindEth/juno/feed.(*Feed).Send
+//@   logged as Send
+
+// ---- a reorg is reported only on evidence ------------------------------------------------------
+// isReverting answers "reorg" only when the node is waiting for the very next block, the source's
+// head is not above the node's, and the source's head differs from the node's block at that
+// height. Everything above the returned height is beyond the source's head or is that differing
+// block - blocks the source does not have.
+//@ func (*Synchronizer).isReverting
+//@   props C06
+//@   arith int
+//@   nosafe
+//@   requires s != nil && s.blockchain != nil
+//@   modifies *
+//@   assigns heightAns, heightErr, localHdr, localHdrErr, remoteHead, remoteHeadErr, calls_Height, calls_BlockHeaderByNumber, calls_BlockHeaderLatest, arg_BlockHeaderByNumber_number, arg_BlockHeaderLatest_ctx
+//@   ensures reorg_on_evidence: isReorg ==> heightErr == nil && uint64(heightAns + 1) == nextHeight && remoteHeadErr == nil && remoteHead.Number <= heightAns && localHdrErr == nil && arg_BlockHeaderByNumber_number == remoteHead.Number && *remoteHead.Hash != *localHdr.Hash
+//@   ensures nothing_valid_reverted_blindly: isReorg ==> lastPossiblyValidHeight == uint64(remoteHead.Number - 1) || lastPossiblyValidHeight == remoteHead.Number
+
+// ---- the head moves backwards only block by block, and only for blocks the source lacks ----------
+// revertHead reverts exactly one block and extends the pending reorg notification downwards: the
+// end of the range is fixed by the first reverted block, the start follows the latest one.
+//@ func (*Synchronizer).revertHead
+//@   props C06
+//@   arith int
+//@   nosafe
+//@   logged
+//@   requires s != nil && localHeader != nil
+//@   modifies *
+//@   assigns revertErr, calls_RevertHead, calls_OnReorg, arg_OnReorg_blockNum
+//@   ensures one_block: calls_RevertHead == old(calls_RevertHead) + 1
+//@   ensures range_opened: old(s.currReorg) == nil ==> s.currReorg != nil && s.currReorg.StartBlockHash == localHeader.Hash && s.currReorg.StartBlockNum == localHeader.Number && s.currReorg.EndBlockHash == localHeader.Hash && s.currReorg.EndBlockNum == localHeader.Number
+//@   ensures range_extended: old(s.currReorg) != nil ==> s.currReorg == old(s.currReorg) && s.currReorg.StartBlockHash == localHeader.Hash && s.currReorg.StartBlockNum == localHeader.Number && s.currReorg.EndBlockHash == old(s.currReorg.EndBlockHash) && s.currReorg.EndBlockNum == old(s.currReorg.EndBlockNum)
+//@   ensures observer_told: calls_OnReorg == old(calls_OnReorg) + 1 && arg_OnReorg_blockNum == localHeader.Number
+
+//@ func (*Synchronizer).handlePluginRevertBlock
+//@   trusted
+//@   modifies *
+
+// revertTask: every revert is of the current head as the chain reports it; a head at or below
+// lastPossiblyValidHeight is reverted only after the source's block of the same number was
+// fetched and its hash differs.
+//@ func (*Synchronizer).revertTask
+//@   props C06
+//@   arith int
+//@   nosafe
+//@   logged
+//@   purecallback resetStreams
+//@   modifies *
+//@   assigns revertErr, calls_RevertHead, calls_OnReorg, arg_OnReorg_blockNum, calls_revertHead, arg_revertHead_localHeader, headsHeader, headsHeaderErr, headNumber, headHash, srcHash, calls_HeadsHeader, srcBlock, srcBlockErr, calls_BlockByNumber, arg_BlockByNumber_blockNumber, arg_BlockByNumber_ctx
+//@   ensures streams_restarted: calls(resetStreams) == old(calls(resetStreams)) + 1
+//@   callsite revertHead@*: the_current_head: headsHeaderErr == nil && $1 == headsHeader
+//@   callsite revertHead@*: only_what_the_source_lacks: headNumber > lastPossiblyValidHeight || (srcBlockErr == nil && arg_BlockByNumber_blockNumber == headNumber && srcHash != headHash)
+
+// ---- only verified blocks are stored ---------------------------------------------------------------
+// The storing continuation is built only when the sanity checks passed, for the block that was
+// checked, with the commitments the check returned.
+//@ func (*Synchronizer).verifierTask
+//@   props C06
+//@   arith int
+//@   nosafe
+//@   requires s != nil && s.blockchain != nil && committedBlock != nil
+//@   modifies *
+//@   assigns sanityErr, sanityCommitments, calls_SanityCheck, arg_SanityCheck_block, arg_SanityCheck_stateUpdate, arg_SanityCheck_newClasses
+//@   callsite SanityCheckNewHeight@*: of_this_block: $1 == committedBlock.Block && $2 == committedBlock.StateUpdate && $3 == committedBlock.NewClasses
+//@   callsite verifierTask$2@*: only_after_verification: calls_SanityCheck == old(calls_SanityCheck) + 1 && sanityErr == nil && commitments == sanityCommitments
+//@ func (*Synchronizer).verifierTask$2
+//@   props C06
+//@   arith int
+//@   nosafe
+//@   modifies *
+//@   callsite storeTask@*: what_was_verified: $2 == *committedBlock && $4 == *commitments
+
+// storeTask: exactly one Store, of the verified block with the verified commitments; the head is
+// reverted only when Store reports that the parent does not match the head, and then the old head
+// (block.Number-1) is the only block reverted without asking the source; a new-head notification
+// is sent exactly when Store succeeded, once, for that block, after the pending reorg notification
+// (which is sent once and cleared).
+//@ func (*Synchronizer).storeTask
+//@   props C06
+//@   arith int
+//@   nosafe
+//@   purecallback resetStreams
+//@   modifies *
+//@   assigns storeErr, calls_Store, arg_Store_block, arg_Store_blockCommitments, arg_Store_stateUpdate, arg_Store_newClasses, calls_Send, calls_revertTask, arg_revertTask_ctx, arg_revertTask_lastPossiblyValidHeight, arg_revertTask_resetStreams
+//@   callsite Blockchain.Store@*: the_verified_block: $1 == committedBlock.Block && $2 == commitments && $3 == committedBlock.StateUpdate && $4 == committedBlock.NewClasses
+//@   callsite revertTask@*: only_on_parent_mismatch: calls_Store == old(calls_Store) + 1 && errIs(storeErr, parentMismatch())
+//@   callsite revertTask@*: only_the_old_head_blindly: $2 == uint64(committedBlock.Block.Number - 2) || $2 == uint64(committedBlock.Block.Number - 1)
+//@   callsite Send@*: only_after_store: calls_Store == old(calls_Store) + 1 && storeErr == nil
+//@   callsite Send@1: reorg_notice_first: $0 == s.reorgFeed && $1 == s.currReorg && $1 != nil
+//@   callsite Send@2: then_the_new_head: $0 == s.newHeads && $1 == old(committedBlock.Block)
+//@   ensures at_most_one_store: calls_Store <= old(calls_Store) + 1
+//@   ensures not_stored_not_announced: (calls_Store == old(calls_Store) || storeErr != nil) ==> calls_Send == old(calls_Send)
+//@   ensures stored_announced_once: calls_Store == old(calls_Store) + 1 && storeErr == nil ==> ((old(s.currReorg) == nil && calls_Send == old(calls_Send) + 1) || (old(s.currReorg) != nil && calls_Send == old(calls_Send) + 2))
+//@   ensures reorg_notice_cleared: calls_Store == old(calls_Store) + 1 && storeErr == nil ==> s.currReorg == nil
+//@   ensures no_revert_without_mismatch: calls_revertTask <= old(calls_revertTask) + 1
